@@ -89,6 +89,22 @@ func updateTimeBoundsForRow(lo *storage.LookupOptions, cls *semantic.GraphClause
 	return nlo, nil
 }
 
+// inTimeBounds returns false if the predicate is temporal and anchored outside
+// the time bounds of the lookup options.
+func inTimeBounds(p *predicate.Predicate, lo *storage.LookupOptions) bool {
+	ta, err := p.TimeAnchor()
+	if err != nil {
+		return true
+	}
+	if lo.LowerAnchor != nil && ta.Before(*lo.LowerAnchor) {
+		return false
+	}
+	if lo.UpperAnchor != nil && ta.After(*lo.UpperAnchor) {
+		return false
+	}
+	return true
+}
+
 // simpleExist returns true if the triple exist. Return the unfeasible state,
 // the table and the error if present.
 func simpleExist(ctx context.Context, gs []storage.Graph, cls *semantic.GraphClause, t *triple.Triple, w io.Writer) (bool, *table.Table, error) {
@@ -137,6 +153,10 @@ func simpleFetch(ctx context.Context, gs []storage.Graph, cls *semantic.GraphCla
 		t, err := triple.New(s, p, o)
 		if err != nil {
 			return nil, err
+		}
+		if !inTimeBounds(p, lo) {
+			// Exist knows nothing about the time bounds of the lookup options.
+			return tbl, nil
 		}
 		for _, g := range gs {
 			gID := g.ID(ctx)
